@@ -384,31 +384,32 @@ _FILE = ("file from the C11 generator (any writer configuration, 1-4 antennas, 1
 PROPERTY = Property(
     "C12", "Every way of reading or continuing a file yields the same event stream",
     [
-        SubCheck("chunked_iteration", access_cases(), check_chunked, quick=140, thorough=7000,
+        SubCheck("chunked_iteration", access_cases(), check_chunked, quick=120, thorough=6000,
                  quick_shards=4,
                  rule=_FILE % 8 + " x every slice_range 1..n+2 (all enumerated) and a repeated "
                  "pass; non-trivial = events with different row counts and n>=2",
                  floors={"nonuniform_rows": 0.35, "n>=4": 0.2}),
         SubCheck("integer_index", access_cases(), check_index, quick=150, thorough=7500,
+                 quick_shards=5,
                  rule=_FILE % 8 + " x reader slice_range x every index -n..n-1 (all enumerated) "
                  "and the four nearest out-of-range indices (IndexError)",
                  floors={"nonuniform_rows": 0.35, "n>=4": 0.2, "reader_slice_range": 0.3}),
         SubCheck("slices_unit_step", access_cases(max_ops=6), make_slices("unit"),
-                 quick=120, thorough=6000, quick_shards=6,
+                 quick=100, thorough=5000, quick_shards=6,
                  rule=_FILE % 6 + " x reader slice_range x every slice 0<=a<b<=n with step "
                  "None/1 and None ends (all enumerated)",
                  floors={"nonuniform_rows": 0.3, "multi_event_slices": 0.35}),
-        SubCheck("slices_negative", access_cases(max_ops=7), make_slices("negative"),
-                 quick=140, thorough=7000,
-                 rule=_FILE % 7 + " x reader slice_range x every slice 0<=a<b<=n with start "
+        SubCheck("slices_negative", access_cases(max_ops=6), make_slices("negative"),
+                 quick=120, thorough=6000, quick_shards=5,
+                 rule=_FILE % 6 + " x reader slice_range x every slice 0<=a<b<=n with start "
                  "and/or stop spelled negative (all enumerated)",
                  classify=classify_negative, shrink_cap=(60, 300)),
-        SubCheck("slices_step", access_cases(max_ops=7), make_slices("step"),
-                 quick=140, thorough=7000, quick_shards=4,
-                 rule=_FILE % 7 + " x reader slice_range x every slice 0<=a<b<=n with step "
+        SubCheck("slices_step", access_cases(max_ops=6), make_slices("step"),
+                 quick=120, thorough=6000, quick_shards=6,
+                 rule=_FILE % 6 + " x reader slice_range x every slice 0<=a<b<=n with step "
                  "2..n+1 (all enumerated)",
                  classify=classify_step, shrink_cap=(60, 300)),
-        SubCheck("append_sessions", append_cases(), check_append, quick=120, thorough=6000,
+        SubCheck("append_sessions", append_cases(), check_append, quick=100, thorough=5000,
                  quick_shards=4,
                  rule="C11 history of 2-7 add() calls written once in a single session and once "
                  "split into 2-4 sessions (modes 'a' / 'r+', detector linked again, empty "
@@ -416,7 +417,7 @@ PROPERTY = Property(
                  floors={"nonuniform_rows": 0.35, "mode_r+": 0.25, "mode_a": 0.3,
                          "empty_session": 0.15}),
         SubCheck("file_generator", generator_cases(), make_generator(False),
-                 quick=200, thorough=10000,
+                 quick=160, thorough=8000,
                  rule="1-3 files (1-5 events each) x slice_range 1..n+2 x interaction model: "
                  "create_event() replays every stored particle in order (type, vertex, "
                  "direction to 4 ulp, energy, interaction, weights), count non-decreasing and "
